@@ -1259,6 +1259,24 @@ def lookup_results_tested_for_none(ctx, rel, rule, min_sites=0):
             if isinstance(x, ast.Name) and isinstance(x.ctx, ast.Store):
                 stores[x.id] = stores.get(x.id, 0) + 1
         looked_up = {nm for nm, vs in binds.items() if vs and all(plain_get(v) for v in vs) and stores.get(nm) == len(vs)}
+        # the look-up itself in truth position: `table.get(key) or default`, `if table.get(key):`, `not table.get(key)`
+        par_ = {}
+        for p_ in ast.walk(f):
+            for ch_ in ast.iter_child_nodes(p_):
+                par_[id(ch_)] = p_
+        for c_ in ast.walk(f):
+            if not plain_get(c_):
+                continue
+            up_ = par_.get(id(c_))
+            in_truth = isinstance(up_, ast.BoolOp) and up_.values[-1] is not c_ or isinstance(up_, ast.UnaryOp) and isinstance(up_.op, ast.Not) \
+                or isinstance(up_, (ast.If, ast.While, ast.IfExp)) and up_.test is c_
+            if isinstance(up_, ast.BoolOp) and isinstance(up_.op, ast.Or) and up_.values[-1] is not c_:
+                in_truth = True
+            if in_truth:
+                n += 1
+                ctx.ob(rule, rel, q, f"`{ast.unparse(c_)}` in truth position", False,
+                       f"`{ast.unparse(up_)[:80]}` decides by the truth of what the look-up found: a found value that is falsy (index 0, an empty string) "
+                       "is taken for 'not found'", c_.lineno)
         if not looked_up:
             continue
         truth = _truth_tested_names(f)
@@ -1469,12 +1487,40 @@ def equality_covers_state(ctx, rel, rule, classes, exempt=None):
                 pair = (r.args[0], r.args[1])
             if pair is None:
                 continue
+            pairs = [pair]
             a, b = pair
-            if not (isinstance(a, ast.Attribute) and isinstance(b, ast.Attribute) and isinstance(a.value, ast.Name) and isinstance(b.value, ast.Name)):
+            # (f1, f2) == (g1, g2): item by item;  self.key() == other.key() with a method that returns a tuple of the object's fields
+            def key_tuple(e_):
+                """`x.key()` of a method of the class that returns a tuple of its object's fields -> that tuple, read on x"""
+                if isinstance(e_, ast.Call) and not e_.args and not e_.keywords and isinstance(e_.func, ast.Attribute) and isinstance(e_.func.value, ast.Name) \
+                        and e_.func.value.id in ("self", other) and f"{cls}.{e_.func.attr}" in src.funcs:
+                    m_ = src.funcs[f"{cls}.{e_.func.attr}"]
+                    rets_ = [r_ for r_ in walk_local(m_) if isinstance(r_, ast.Return)]
+                    if len(rets_) == 1 and isinstance(rets_[0].value, ast.Tuple) and all(
+                            isinstance(x_, ast.Attribute) and isinstance(x_.value, ast.Name) and x_.value.id == param_names(m_)[0] for x_ in rets_[0].value.elts):
+                        return ast.Tuple(elts=[ast.Attribute(value=ast.Name(id=e_.func.value.id, ctx=ast.Load()), attr=x_.attr, ctx=ast.Load())
+                                               for x_ in rets_[0].value.elts], ctx=ast.Load())
+                return e_
+            a, b = key_tuple(a), key_tuple(b)
+            if isinstance(a, ast.Tuple) and isinstance(b, ast.Tuple) and len(a.elts) == len(b.elts):
+                pairs = list(zip(a.elts, b.elts))
+            elif False and isinstance(a, ast.Call) and isinstance(b, ast.Call) and not a.args and not b.args and not a.keywords and not b.keywords \
+                    and isinstance(a.func, ast.Attribute) and isinstance(b.func, ast.Attribute) and a.func.attr == b.func.attr \
+                    and isinstance(a.func.value, ast.Name) and isinstance(b.func.value, ast.Name) and {a.func.value.id, b.func.value.id} == {"self", other} \
+                    and f"{cls}.{a.func.attr}" in src.funcs:
+                m_ = src.funcs[f"{cls}.{a.func.attr}"]
+                rets_ = [r_ for r_ in walk_local(m_) if isinstance(r_, ast.Return)]
+                if len(rets_) == 1 and isinstance(rets_[0].value, ast.Tuple):
+                    for e_ in rets_[0].value.elts:
+                        if isinstance(e_, ast.Attribute) and isinstance(e_.value, ast.Name) and e_.value.id == param_names(m_)[0]:
+                            covered.add(e_.attr.lstrip("_"))
                 continue
-            if {a.value.id, b.value.id} != {"self", other} or a.attr != b.attr:
-                continue
-            covered.add(a.attr.lstrip("_"))
+            for a, b in pairs:
+                if not (isinstance(a, ast.Attribute) and isinstance(b, ast.Attribute) and isinstance(a.value, ast.Name) and isinstance(b.value, ast.Name)):
+                    continue
+                if {a.value.id, b.value.id} != {"self", other} or a.attr != b.attr:
+                    continue
+                covered.add(a.attr.lstrip("_"))
         missing = [f for f in state if f.lstrip("_") not in covered and (cls, f) not in exempt]
         n += 1
         ctx.ob(rule, rel, f"{cls}.__eq__", f"state {state}; compared {sorted(covered)}", not missing,
